@@ -152,4 +152,33 @@ theorem C10_l2_gain_lmi (P A : Matrix n n ℝ) (B : Matrix n m ℝ) (C : Matrix 
   C10_l2_gain P A B C D γ hγ hP
     ((Matrix.isUnit_iff_isUnit_det P).mp (Matrix.PosDef.isUnit (brl_P_posDef P A B C D γ hP h))) h u N
 
+section dmdc
+variable {p r m : Type} [Fintype p] [Fintype r] [Fintype m] [DecidableEq p] [DecidableEq r] [DecidableEq m]
+
+/-- **DMDc variant.**  `LmiDmdcHinfReg` bounds the reduced system `(Â, B̂, C = Q̂, 0)` and returns the full matrix
+`U = Q̂ [Â B̂] blkdiag(Q̂, I)ᵀ`, i.e. `A = Q̂ Â Q̂ᵀ`, `B = Q̂ B̂`.  With `Q̂ᵀQ̂ = I` the state of the returned model is
+`Q̂` times the state of the reduced one at every time, so its output (`C = I`) is the reduced system's output `Q̂ ξ`
+and the bound on the reduced system is a bound on the returned model. -/
+theorem C10_dmdc_lift (Q : Matrix p r ℝ) (hQ : Qᵀ * Q = 1) (Ah : Matrix r r ℝ) (Bh : Matrix r m ℝ)
+    (u : ℕ → m → ℝ) (t : ℕ) :
+    stateAt (Q * Ah * Qᵀ) (Q * Bh) u t = Q *ᵥ stateAt Ah Bh u t := by
+  induction t with
+  | zero => simp [stateAt]
+  | succ t ih =>
+    simp only [stateAt, ih, mulVec_add, mulVec_mulVec]
+    congr 1
+    have : Q * Ah * Qᵀ * Q = Q * Ah := by rw [Matrix.mul_assoc, hQ, Matrix.mul_one]
+    rw [this]
+
+/-- hence the reported `γ` bounds the ℓ2 gain of the returned DMDc model over every horizon -/
+theorem C10_dmdc_l2_gain (P Ah : Matrix r r ℝ) (Bh : Matrix r m ℝ) (Q : Matrix p r ℝ) (hQ : Qᵀ * Q = 1)
+    (γ : ℝ) (hγ : 0 < γ) (hP : Pᵀ = P) (hPu : IsUnit P.det)
+    (h : (brlLMI P Ah Bh Q (0 : Matrix p m ℝ) γ).PosDef) (u : ℕ → m → ℝ) (N : ℕ) :
+    (Finset.range N).sum (fun t => stateAt (Q * Ah * Qᵀ) (Q * Bh) u t ⬝ᵥ stateAt (Q * Ah * Qᵀ) (Q * Bh) u t)
+      ≤ γ^2 * (Finset.range N).sum (fun t => u t ⬝ᵥ u t) := by
+  have := C10_l2_gain P Ah Bh Q (0 : Matrix p m ℝ) γ hγ hP hPu h u N
+  simpa [C10_dmdc_lift Q hQ Ah Bh u] using this
+
+end dmdc
+
 end Pk.C10
